@@ -56,6 +56,10 @@ Section Sort.
   Fixpoint isort (l : list A) : list A := match l with [] => [] | x :: r => insert x (isort r) end.
 End Sort.
 
+(* index of the first element satisfying P, counted from i; dflt when there is none *)
+Fixpoint index_from {A} (P : A -> bool) (dflt i : N) (l : list A) : N :=
+  match l with [] => dflt | x :: r => if P x then i else index_from P dflt (i + 1) r end.
+
 Fixpoint bytes_leb (a b : bytes) : bool :=          (* str <= str (code points = utf-8 byte order) *)
   match a, b with
   | [], _ => true
@@ -204,11 +208,7 @@ Section Step.
     end.
 
   Definition first_index_of (old : list entry) (e : entry) : N :=
-    (fix go (i : N) (l : list entry) : N :=
-       match l with
-       | [] => N.of_nat (length old)
-       | x :: r => if bytes_eqb (dir_of (fst x)) (dir_of (fst e)) then i else go (i + 1) r
-       end) 0 old.
+    index_from (fun x : entry => bytes_eqb (dir_of (fst x)) (dir_of (fst e))) (N.of_nat (length old)) 0 old.
 
   Definition step (s : state) (o : op) : option state :=
     match o with
@@ -269,11 +269,7 @@ Definition abs (s : state) : sstate := map (fun e => (dir_of (fst e), snd e)) (s
 Definition flat (rgs : list rgroup) : sstate := concat rgs.
 
 Definition sfirst_index_of (old : sstate) (g : path * rows) : N :=
-  (fix go (i : N) (l : sstate) : N :=
-     match l with
-     | [] => N.of_nat (length old)
-     | x :: r => if bytes_eqb (fst x) (fst g) then i else go (i + 1) r
-     end) 0 old.
+  index_from (fun x : path * rows => bytes_eqb (fst x) (fst g)) (N.of_nat (length old)) 0 old.
 
 Definition spec_step (a : sstate) (o : op) : option sstate :=
   match o with
